@@ -1013,12 +1013,16 @@ func c09Denials(cs *caseSet, tier string, big []byte) error {
 		{"nul-only", "\x00"},
 	}
 	cfg := mqtt.Config{AtLeastOnceMax: 1, ExactlyOnceMax: 1}
+	repeat := 0 // the denied request is issued this many times before the recorded one
 	run := func(kind string, q, probe c09Req) error {
 		k, err := newC09Client("deny", cfg)
 		if err != nil {
 			return err
 		}
 		defer k.close()
+		for i := 0; i < repeat; i++ {
+			k.do(q) // a denial leaves no trace: not even a slot or an identifier stays taken
+		}
 		if q.big() {
 			acc := k.acc[q.level%3]
 			lvl := 0
@@ -1084,14 +1088,31 @@ func c09Denials(cs *caseSet, tier string, big []byte) error {
 				}
 			}
 		}
-		if tier == "thorough" {
-			// more than 268435455 bytes of filters
+		{
+			// more than 268435455 bytes of filters; and the same denial 520 times over (more often
+			// than there are slots for pending requests), then the probe
 			fs := make([]string, 4097)
 			f := strings.Repeat("f", 65535)
 			for i := range fs {
 				fs[i] = f
 			}
-			if err := run("deny-"+name+"-packet-max", c09Req{kind: kind, level: 1, fs: fs}, c09Req{kind: kind, level: 1, fs: []string{"probe/#"}}); err != nil {
+			// (one oversized denial is enough to see a leak: the probe's packet identifier moves)
+			var reps []int // the case term carries the 268 MB of filters: thorough tier only
+			if tier == "thorough" {
+				reps = []int{0}
+			}
+			for _, rep := range reps {
+				repeat = rep
+				err := run(fmt.Sprintf("deny-%s-packet-max-x%d", name, rep+1), c09Req{kind: kind, level: 1, fs: fs}, c09Req{kind: kind, level: 1, fs: []string{"probe/#"}})
+				repeat = 0
+				if err != nil {
+					return err
+				}
+			}
+			repeat = 520
+			err := run(fmt.Sprintf("deny-%s-empty-filter-x521", name), c09Req{kind: kind, level: 1, fs: []string{"a", ""}}, c09Req{kind: kind, level: 1, fs: []string{"probe/#"}})
+			repeat = 0
+			if err != nil {
 				return err
 			}
 		}
